@@ -129,7 +129,7 @@ Index(st, b, ix) ==
     [] OTHER -> Norm(MarkOpen(st), OpenV)
 
 ----------------------------------------------------------------------------
-RECURSIVE EvalE(_, _, _), EvalSeq(_, _, _, _, _), EvalMap(_, _, _, _, _), CallV(_, _, _, _, _), Invoke(_, _, _),
+RECURSIVE EvalE(_, _, _), EvalSeq(_, _, _, _, _), EvalSeqT(_, _, _, _, _, _), EvalMap(_, _, _, _, _), CallV(_, _, _, _, _), Invoke(_, _, _),
           Apply(_, _, _), BindParams(_, _, _, _, _), RunDefers(_, _, _, _, _),
           Exec(_, _, _), ExecList(_, _, _, _), While(_, _, _, _), CFor(_, _, _, _), ForIn(_, _, _, _, _, _),
           ElseIfs(_, _, _, _), Cases(_, _, _, _, _), CaseExprs(_, _, _, _, _, _), AssignAll(_, _, _, _, _, _), DefineAll(_, _, _, _, _, _)
@@ -140,6 +140,19 @@ EvalSeq(es, i, s, st, acc) ==
   ELSE LET r == EvalE(es[i], s, st) IN
        IF r.o # "norm" THEN r ELSE EvalSeq(es, i + 1, s, r.st, Append(acc, r.v))
 
+\* typed literals ([]int64{...}, map[string]int64{...}, element type interface likewise): the same left-to-right order; each operand is
+\* converted to the declared type as soon as it has been evaluated, and a value that cannot be converted fails there -- before any later
+\* operand is evaluated.  (Families use string keys and int / string values: int64 accepts ints only, interface anything.)
+TyOf(e) == IF "ty" \in DOMAIN e THEN e.ty ELSE ""
+ElemOK(ty, v) == ty \in {"", "[]interface", "map[string]interface"} \/ v.t = "int"
+KeyOK(ty, k) == ty = "" \/ k.t = "str"
+EvalSeqT(es, i, s, st, acc, ty) ==
+  IF i > Len(es) THEN Norm(st, ListV(acc))
+  ELSE LET r == EvalE(es[i], s, st) IN
+       IF r.o # "norm" THEN r
+       ELSE IF ~ElemOK(ty, r.v) THEN Thr(r.st, RtErrV("convert"))
+       ELSE EvalSeqT(es, i + 1, s, r.st, Append(acc, r.v), ty)
+
 \* map literal: key1, value1, key2, value2, ... ; later equal keys replace earlier ones
 MapPut(l, k, v) == IF \E j \in 1..Len(l) : EqV(l[j].l[1], k)
                    THEN [j \in 1..Len(l) |-> IF EqV(l[j].l[1], k) THEN ListV(<<k, v>>) ELSE l[j]]
@@ -148,8 +161,11 @@ EvalMap(e, i, s, st, acc) ==
   IF i > Len(e.ks) THEN Norm(st, MapV(acc))
   ELSE LET rk == EvalE(e.ks[i], s, st) IN
        IF rk.o # "norm" THEN rk
+       ELSE IF ~KeyOK(TyOf(e), rk.v) THEN Thr(rk.st, RtErrV("convert"))
        ELSE LET rv == EvalE(e.vs[i], s, rk.st) IN
-            IF rv.o # "norm" THEN rv ELSE EvalMap(e, i + 1, s, rv.st, MapPut(acc, rk.v, rv.v))
+            IF rv.o # "norm" THEN rv
+            ELSE IF ~ElemOK(TyOf(e), rv.v) THEN Thr(rv.st, RtErrV("convert"))
+            ELSE EvalMap(e, i + 1, s, rv.st, MapPut(acc, rk.v, rv.v))
 
 EvalE(e, s, st) ==
   CASE e.k = "int"  -> Norm(st, IntV(e.i))
@@ -158,6 +174,7 @@ EvalE(e, s, st) ==
     [] e.k = "nil"  -> Norm(st, NilV)
     [] e.k = "flt"  -> Norm(st, FltV(e.s))
     [] e.k = "paren" -> EvalE(e.e, s, st)
+    [] e.k = "addr" -> LET r == EvalE(e.e, s, st) IN IF r.o # "norm" THEN r ELSE Norm(r.st, V("ptr", 0, "", <<>>))   \* &operand: its sub-operands are evaluated once, like the operand's
     [] e.k = "id"   -> LET v == Lookup(st, s, e.n) IN IF v.t = "none" THEN Thr(st, RtErrV("undefined")) ELSE Norm(st, v)
     [] e.k = "bin"  ->
          LET l == EvalE(e.l, s, st) IN
@@ -181,7 +198,7 @@ EvalE(e, s, st) ==
          IF l.o = "norm" /\ l.v.t # "nil" THEN l
          ELSE IF l.o \in {"norm", "thr"} THEN EvalE(e.r, s, l.st)
          ELSE l
-    [] e.k = "list" -> EvalSeq(e.es, 1, s, st, <<>>)
+    [] e.k = "list" -> IF TyOf(e) = "" THEN EvalSeq(e.es, 1, s, st, <<>>) ELSE EvalSeqT(e.es, 1, s, st, <<>>, TyOf(e))
     [] e.k = "map"  -> EvalMap(e, 1, s, st, <<>>)
     [] e.k = "idx"  ->
          LET b == EvalE(e.e, s, st) IN
@@ -260,6 +277,7 @@ Apply(f, vals, st) ==
          CASE f.s = "p"  -> IF Len(vals) # 1 THEN Thr(st, RtErrV("arity")) ELSE Norm(Log(st, vals[1]), vals[1])
            [] f.s = "pv" -> IF Len(vals) # 2 THEN Thr(st, RtErrV("arity")) ELSE Norm(Log(st, vals[1]), vals[2])
            [] f.s = "pn" -> Norm(Log(st, ListV(vals)), NilV)                \* variadic host probe
+           [] f.s = "pa" -> IF Len(vals) # 1 THEN Thr(st, RtErrV("arity")) ELSE Norm(Log(st, IntV(77)), NilV)   \* takes a pointer (&x, &a[i], &m.k), touches nothing
            [] OTHER -> Norm(MarkOpen(st), OpenV)
     [] OTHER -> Thr(st, RtErrV("notfunc"))
 
@@ -457,7 +475,7 @@ Exec(n, s, st) ==
 ----------------------------------------------------------------------------
 (* a whole run: top-level scope with the host probes, top-level defer list *)
 InitState(fuel) ==
-  [sc |-> <<[par |-> 0, vars |-> [n \in {"p", "pv", "pn"} |-> HostV(n)]]>>,
+  [sc |-> <<[par |-> 0, vars |-> [n \in {"p", "pv", "pn", "pa"} |-> HostV(n)]]>>,
    log |-> <<>>, fuel |-> fuel, fns |-> <<>>, ds |-> <<<<>>>>, open |-> FALSE]
 
 \* result projection: class of the outcome, value, probe log, top-level bindings
@@ -473,7 +491,7 @@ Run(prog, fuel) ==
   ELSE LET dl == b.st.ds[1]
            d == RunDefers([b.st EXCEPT !.ds = <<>>], dl, Len(dl), b, NoneV) IN
        IF d.o = "fuel" THEN [cls |-> "fuel", v |-> NilV, log |-> <<>>, top |-> <<>>, open |-> TRUE]
-       ELSE LET names == DOMAIN d.st.sc[1].vars \ {"p", "pv", "pn"} IN
+       ELSE LET names == DOMAIN d.st.sc[1].vars \ {"p", "pv", "pn", "pa"} IN
             [cls |-> CASE d.o \in {"norm", "ret"} -> "ok" [] d.o = "thr" -> "err" [] OTHER -> "strayloopctl",
              v |-> IF d.o = "ret" THEN ProjV(d.v) ELSE IF d.o = "thr" THEN d.v ELSE OpenV,
              log |-> [j \in 1..Len(d.st.log) |-> ProjV(d.st.log[j])],
